@@ -98,6 +98,11 @@ checks = {
    technique="stateless model checking with the controlled scheduler over TWO buses: two real stores (downstream, upstream) linked by the real client.SyncClient in one testing/synctest bubble per execution; exhaustive enumeration of operation histories (writes, creations, deletions, undeletions on either side, outages, periods) and, deviation-bounded, delivery orders; differential oracle downstream subtree = upstream subtree plus newest-accepted-write reference",
    text="After an initial catch-up, all histories of 3 (thorough 4) operations over 15 are run, then the link is brought up and 5 sync periods pass; the device subtrees read through nodes.* (deleted included) must be identical in node set, types, every point (all fields but origin) and edge points, and hold the newest accepted write per identity.",
    note="Outage = sync disabled/re-enabled (clean disconnect); abrupt link loss with in-flight messages and upstream restart are not modelled. Known findings: tombstones and writes to deleted nodes made during an outage (6 keys)."),
+ "C20": dict(
+   category="model_checking", design_ref="DESIGN.md §2.3, §2.4, §3 C20",
+   technique="stateless model checking with a preemption-bounded controlled scheduler on the real store: scheduling points are every bus delivery and, through an import-rewriting overlay of store/sqlite.go (database/sql -> gated wrapper, sync.Mutex -> gated channel mutex), every SQL operation and every writeLock.Lock; concurrent client threads (node writer, edge writer, reader, verify, maintenance, shutdown) are explored for all schedules with at most 2 (thorough 3) preemptions inside testing/synctest bubbles",
+   text="For all triples of client threads and all schedules within the preemption bound: every request is answered (a schedule where nothing is enabled for 31 virtual seconds is a deadlock), a read issued after an acknowledgement sees the write, a reader's successive reads never go back, the final content is the newest acknowledged write per identity with consistent hashes and nothing for storeMaint to repair; with a concurrent Store.Stop at every point: Stop returns, the file reopens with the same root and all acknowledged writes.",
+   note="The data-race clause cannot be seen by a cooperative scheduler; it is covered by a separate free-running `go test -race` pass of the same thread bodies (sampling, reported in the evidence as such). Interleavings between two scheduling points are not enumerated."),
 }
 pending_reason = "check not built yet in this round (planned in DESIGN.md §3); not claimed until its harness exists"
 m = {
@@ -105,7 +110,7 @@ m = {
  "setup_cmd": "./run.sh setup",
  "hooks": {
    "guard": "verif",
-   "enable": "no source hooks: instrumentation is injected with `go build/test -overlay` and a `replace` of github.com/nats-io/nats.go in the harness module; /repo is built as-is",
+   "enable": "no source hooks in /repo: instrumentation is injected at build time with `go build/test -overlay` (virtual in-package test files; for C20 a copy of store/sqlite.go whose database/sql and sync imports are rewritten to gated wrappers, generated by gen_gated.py from the current tree) and a `replace` of github.com/nats-io/nats.go in the harness module; /repo is built as-is",
    "baseline_off_cmd": "cd /repo && GOFLAGS=-mod=mod go test -p 1 -vet=off -count=1 ./...",
    "source_commits": [],
    "add_only": True,
